@@ -32,12 +32,16 @@ from ..core import viol, exc_site, Inconclusive, TMP_ROOT
 LEVEL = "fault_enumeration"
 EXHAUSTIVE = True
 RULE = ("per configuration (FCN|QRES x {plain, inverse-problem Parameter, adaptive weights, both} x "
-        "{SGD+momentum, Adam, RMSprop+momentum} x {no scheduler, StepLR}; static grid samplers) the interruption space "
-        "{(k, N, c): N in 3..Nmax, c in {1,2,3}, k in 1..N-1} is enumerated COMPLETELY (Nmax = 5 quick, 10 thorough): this "
-        "(k, N, c) space is what `exhaustive` refers to; the thorough tier also enumerates all 48 configurations, the quick "
-        "tier takes 8 of them covering every level of every factor. WeightSaveCallback: all check_interval in {1,2,3} "
-        "x save_initial x save_final per configuration, N in {4} (quick) / {3,6} (thorough), saved module cycling over "
-        "network / condition / Solver. A case is non-trivial when every k of its (N, c) was crashed, resumed from the "
+        "{SGD+momentum, Adam, RMSprop+momentum} x {no scheduler, StepLR frequency 1, StepLR frequency 2, ExponentialLR "
+        "frequency 3}; static grid samplers) the interruption space {(k, N, c): N in the tier's set, c in {1,2,3}, "
+        "k in 1..N-1} is enumerated COMPLETELY: for every generated (N, c) EVERY k is crashed and resumed -- this (k, N, c) "
+        "space is what `exhaustive` refers to. N: quick 3..5 plus 2*frequency+3 for scheduler frequency f > 1 (7 resp. 9), "
+        "thorough 3..10. Configurations: thorough = all 24 model x feature x optimizer combinations, each with 2 of the 4 "
+        "scheduler levels (rotating with the seed, every level 12 times); quick = 8 configurations covering every level of "
+        "every factor (each scheduler level twice). WeightSaveCallback: all check_interval in {1,2,3} x save_initial x "
+        "save_final per configuration, N in {4} (quick) / {3,6,9} (thorough), saved module cycling over network / condition "
+        "/ Solver, run names cycling over names with dots, dashes, several dots and trailing versions; exactly the documented "
+        "files <name>_init.pt / <name>_min_loss.pt / <name>_final.pt may appear in the directory. A case is non-trivial when every k of its (N, c) was crashed, resumed from the "
         "file on disk and compared; distinct = (configuration, N, c) resp. (configuration, c, flags, module)")
 REQUIRED_REACH = ["TrainerStateCheckpoint.on_train_batch_end", "WeightSaveCallback.on_train_start",
                   "WeightSaveCallback.on_train_batch_start", "WeightSaveCallback.on_train_end", "Solver.training_step",
@@ -47,6 +51,8 @@ ASSUMPTIONS = ["sampling is deterministic (static grid samplers), as the propert
                "the crash is simulated by an exception raised from a Lightning callback after step k (process state is "
                "discarded by building a completely fresh world for the resumed run); torn / partially written files "
                "are not simulated",
+               "a world whose training diverges within 10 steps (screened with the plain reference loop) is replaced by the "
+               "same configuration with the next world seed (counted as world_seed_shifted_for_stability)",
                "CPU, float32, one optimizer, one epoch (max_steps = N), no validation during these runs",
                "equality tolerance 1e-7 (absolute + relative) for resumed-vs-uninterrupted, exact equality for files "
                "of WeightSaveCallback"]
@@ -55,11 +61,15 @@ CASE_TIMEOUT = 300
 MODELS = ["FCN", "QRES"]
 FEATS = ["plain", "param", "adaptive", "both"]
 OPTS = ["SGDm", "Adam", "RMSprop"]
-SCHEDS = [None, "StepLR"]
+SCHEDS = [None, "StepLR", "StepLR/f2", "ExpLR/f3"]
+SCHED_SPEC = {"StepLR": {"cls": "StepLR", "args": {"step_size": 2, "gamma": 0.5}, "freq": 1},
+              "StepLR/f2": {"cls": "StepLR", "args": {"step_size": 1, "gamma": 0.5}, "freq": 2},
+              "ExpLR/f3": {"cls": "ExponentialLR", "args": {"gamma": 0.6}, "freq": 3}}
+RUN_NAMES = ["w", "fcn_lr0.01", "v1.2", "run-3_b", "a.b.c", "net-2.0.1"]
 
 
 def warmup():
-    from .. import c07_harness  # noqa: F401  (imports pytorch_lightning before any watchdog is armed)
+    from .. import c07_harness, c07_refloop  # noqa: F401  (imports pytorch_lightning before any watchdog is armed)
 
 
 # ---------------------------------------------------------------------------------------------
@@ -95,34 +105,67 @@ def world_spec(cfg, seed):
                  {"kind": "param", "param": 1, "weight": 0.3, "target": 1.0},
                  {"kind": "periodic", "model": 0, "res": "p_left_right_D", "param": 0, "weight": 0.7,
                   "sampler": {"n": [1, 3], "static": True}}]
-    opt = {"SGDm": {"cls": "SGD", "lr": 0.004, "args": {"momentum": 0.9}},
+    opt = {"SGDm": {"cls": "SGD", "lr": 0.002, "args": {"momentum": 0.9}},
            "Adam": {"cls": "Adam", "lr": 0.01, "args": {}},
            "RMSprop": {"cls": "RMSprop", "lr": 0.003, "args": {"momentum": 0.5}}}[cfg["opt"]]
     opt = dict(opt)
-    if cfg["sched"] == "StepLR":
-        opt["sched"] = {"cls": "StepLR", "args": {"step_size": 2, "gamma": 0.5}, "freq": 1}
+    if cfg["sched"]:
+        opt["sched"] = {k: (dict(v) if isinstance(v, dict) else v) for k, v in SCHED_SPEC[cfg["sched"]].items()}
     hidden = [5, 4] if cfg["model"] == "FCN" else [4]
     return {"seed": int(seed), "models": [{"kind": cfg["model"], "hidden": hidden}], "params": params, "conds": conds,
             "vals": [], "opt": opt, "trainer": {}}
 
 
+_STABLE = {}
+
+
+def stable_world_spec(cfg, seed, counters=None):
+    """The world of a case: world_spec(cfg, seed + d) for the smallest d in 0..7 whose training stays finite and bounded
+    for 10 steps.  Screened with the plain reference loop (no oracle role here): a diverging problem cannot be judged."""
+    from .. import c07_refloop as R
+    key = (cfg_name(cfg), int(seed))
+    if key not in _STABLE:
+        for d in range(8):
+            spec = world_spec(cfg, int(seed) + d)
+            ref = R.run(spec, 10)
+            mx = max(float(t.abs().max()) for st in ref["traj"] for t in st)
+            if mx == mx and mx < 1e3:
+                _STABLE[key] = d
+                break
+        else:
+            raise Inconclusive("no stable world within 8 seeds for %s" % (key,))
+    d = _STABLE[key]
+    if counters is not None and d:
+        counters["world_seed_shifted_for_stability"] = 1
+    return world_spec(cfg, int(seed) + d)
+
+
 def gen_cases(seed, tier):
-    cfgs = all_configs()
     if tier == "quick":
         chosen = []
         for i in range(8):
             m, f = MODELS[i % 2], FEATS[(i // 2) % 4]
             o = OPTS[(i + seed) % 3]
-            s = SCHEDS[(i // 2 + i + seed) % 2]
+            s = SCHEDS[(i // 2 + i + seed) % 4]           # every scheduler level twice
             chosen.append({"model": m, "feat": f, "opt": o, "sched": s})
-        nmax, ws_n = 5, [4]
+        n_base, ws_n = [3, 4, 5], [4]
     else:
-        chosen, nmax, ws_n = cfgs, 10, [3, 6, 9]
+        chosen = []
+        i = 0
+        for m in MODELS:
+            for f in FEATS:
+                for o in OPTS:
+                    for h in range(2):                   # 2 of the 4 scheduler levels per combination
+                        chosen.append({"model": m, "feat": f, "opt": o, "sched": SCHEDS[(i + 2 * h + (i // 4) + seed) % 4]})
+                    i += 1
+        n_base, ws_n = list(range(3, 11)), [3, 6, 9]
     rng = np.random.default_rng([seed, 19])
     cases = []
     for ci, cfg in enumerate(chosen):
         wseed = int(rng.integers(0, 2**31 - 1))
-        for N in range(3, nmax + 1):
+        freq = SCHED_SPEC[cfg["sched"]]["freq"] if cfg["sched"] else 1
+        n_list = sorted(set(n_base) | ({2 * freq + 3} if freq > 1 else set()))   # a decay before and after every crash
+        for N in n_list:
             for c in (1, 2, 3):
                 cases.append({"kind": "crash", "cfg": cfg, "N": N, "c": c, "seed": wseed})
         j = 0
@@ -131,9 +174,10 @@ def gen_cases(seed, tier):
                 for init in (False, True):
                     for final in (False, True):
                         target = ["model", "cond", "solver"][(j + ci) % 3]
+                        name = RUN_NAMES[(j + ci + seed) % len(RUN_NAMES)]
                         j += 1
                         cases.append({"kind": "wsave", "cfg": cfg, "N": N, "c": c, "init": init, "final": final,
-                                      "target": target, "seed": wseed})
+                                      "target": target, "name": name, "seed": wseed})
     return cases
 
 
@@ -219,8 +263,8 @@ def _crash_case(case, res, tmp):
     from .. import c07_harness as H
     import torchphysics as tp
     cfg, N, c = case["cfg"], case["N"], case["c"]
-    spec = world_spec(cfg, case["seed"])
     V, C = res["viol"], res["counters"]
+    spec = stable_world_spec(cfg, case["seed"], C)
     mech = {"callback": "TrainerStateCheckpoint", "feat": cfg["feat"], "opt": cfg["opt"], "sched": cfg["sched"],
             "model": cfg["model"]}
 
@@ -397,15 +441,17 @@ def _wsave_case(case, res, tmp):
     from .. import c07_harness as H, c07_world as W
     import torchphysics as tp
     cfg, N, c = case["cfg"], case["N"], case["c"]
-    spec = world_spec(cfg, case["seed"])
     V, C = res["viol"], res["counters"]
+    spec = stable_world_spec(cfg, case["seed"], C)
     mech = {"callback": "WeightSaveCallback", "feat": cfg["feat"], "opt": cfg["opt"], "model": cfg["model"],
             "saved": case["target"]}
     pick = _target(case["target"])
-    files = {s: os.path.join(tmp, "w_%s.pt" % s) for s in ("init", "min_loss", "final")}
+    name = case.get("name", "w")
+    mech["name_class"] = ("dots" if name.count(".") > 1 else "dot" if "." in name else "plain") + ("+dash" if "-" in name else "")
+    files = {s: os.path.join(tmp, "%s_%s.pt" % (name, s)) for s in ("init", "min_loss", "final")}
 
     def cbs(world, solver):
-        return [tp.utils.WeightSaveCallback(pick(world, solver), tmp, "w", check_interval=c,
+        return [tp.utils.WeightSaveCallback(pick(world, solver), tmp, name, check_interval=c,
                                             save_initial_model=case["init"], save_final_model=case["final"])]
     try:
         run = H.run_real(spec, N, lib_callbacks=cbs, watch=files, probe=pick)
@@ -430,6 +476,16 @@ def _wsave_case(case, res, tmp):
         tgt.load_state_dict(blob)
         return {k: v.detach().clone() for k, v in tgt.state_dict().items()}
 
+    # exactly the documented files may appear in the callback's directory
+    documented = {os.path.basename(f) for f in files.values()}
+    extra = sorted(f for f in os.listdir(tmp) if f not in documented and not f.endswith(".copy"))
+    res["judged"] += 1
+    C["directory_listings_judged"] = 1
+    C["run_name_" + mech["name_class"]] = 1
+    if extra:
+        V.append(viol("undocumented_file", "N=%d c=%d name=%r: the callback wrote %s; documented are <name>_init.pt / "
+                      "<name>_min_loss.pt / <name>_final.pt, present: %s" % (N, c, name, extra, sorted(
+                          f for f in os.listdir(tmp) if f in documented)), **mech))
     boundaries = [(hk, gs, sd) for hk, gs, sd in run.rec.probe_states if hk in ("batch_end", "batch_start", "train_end") and gs >= 1]
     judged_files = 0
     versions = {}
@@ -499,7 +555,8 @@ def run_case(case):
     if case["kind"] == "crash":
         cls = "crash|%s|N%d|c%d" % (cfg_name(cfg), case["N"], case["c"])
     else:
-        cls = "wsave|%s|c%d|i%d f%d|%s" % (cfg_name(cfg), case["c"], case["init"], case["final"], case["target"])
+        cls = "wsave|%s|c%d|i%d f%d|%s|%s" % (cfg_name(cfg), case["c"], case["init"], case["final"], case["target"],
+                                              case.get("name", "w"))
     res = {"cls": cls, "judged": 0, "nontrivial": False, "viol": [], "counters": {}}
     os.makedirs(TMP_ROOT, exist_ok=True)
     tmp = tempfile.mkdtemp(prefix="c19-", dir=TMP_ROOT)
